@@ -1,11 +1,13 @@
 #!/bin/sh
-# tools/seed_try.sh <candidate-dir> <ID> [tier]  — development helper: run a check against a scratch copy of the fixed
-# tree (/tmp/hw/me/repo_mut) with the candidate patch applied, using the current /verif/harness sources.
-D=$1; ID=$2; TIER=${3:-quick}
-W=/tmp/hw/me
+# tools/seed_try.sh <workspace> <candidate-dir> <ID> [tier]  — development helper: run a check against a scratch copy of
+# the current /repo HEAD (/tmp/hw/<workspace>/repo_mut) with the candidate patch applied, using the current /verif/harness sources.
+WS=$1; D=$(cd "$2" && pwd); ID=$3; TIER=${4:-quick}
+W=/tmp/hw/$WS
+[ -d $W ] || /verif/tools/mkwork.sh $WS >/dev/null 2>&1
 rsync -a --delete /verif/harness/src/ $W/src/
-rsync -a --delete --exclude target --exclude .git /tmp/repo_fixed/ $W/repo_mut/
+rsync -a --delete /verif/regress/ $W/root/regress/
+cp /verif/known_findings.json $W/root/
+rm -rf $W/repo_mut.tmp; git -C /repo worktree prune; rsync -a --delete --exclude target --exclude .git /repo/ $W/repo_mut/
 (cd $W/repo_mut && git apply "$D/patch.diff") || { echo "patch does not apply"; exit 2; }
 $W/run.sh mut $ID $TIER; RC=$?
-rsync -a --delete --exclude target --exclude .git /tmp/repo_fixed/ $W/repo_mut/
 echo "exit=$RC"
